@@ -50,4 +50,9 @@ func checkC02(c *Ctx) {
 	c.growRules()
 	c.occupancyByCount()
 	c.retentionFresh("sessions", "AckMsg", map[string]string{"OnComplete": "the completion callback is meant to be retained"})
+	// the acknowledgement that reaches the wire is the packet that was encoded (whole, under the write mutex), and
+	// the PUBLISH handed on is read from the ring before its bytes are released to the receiver
+	c.useRules(ruleL7)
+	c.writerCriticalSpan()
+	c.commitAfterUse()
 }
